@@ -92,9 +92,58 @@ def cpp_value(run, expr, includes=("limits.h",), extra_src=""):
     return int(subprocess.run([exe], stdout=subprocess.PIPE, text=True).stdout.strip())
 
 
+def resolve_locals(body):
+    """Textual normalisation for the regex translators: a local that is assigned exactly once from a call-free expression over
+    struct fields (`n = CFG->x + 1;`) or from `strlen(<identifier>)` is replaced by that expression in the text that follows, and the
+    assignment is dropped.  "Hoist a repeated expression into a local" refactorings then leave the recognised statements unchanged."""
+    TY = r"(?:const\s+)?(?:size_t|ssize_t|int|unsigned(?:\s+int)?|long)\s+(?:const\s+)?"
+    out = body
+    for _ in range(8):
+        changed = False
+        for m in re.finditer(r"^[ \t]*(?:" + TY + r")?(\w+)[ \t]*=[ \t]*([^;{}=\n]+);", out, re.M):
+            name, expr = m.group(1), m.group(2).strip()
+            is_strlen = re.fullmatch(r"strlen\s*\(\s*\w+\s*\)", expr) is not None
+            is_field = re.fullmatch(r"[\w\s>+\-.()]+", expr) is not None and "->" in expr and not re.search(r"\b\w+\s*\(", expr)
+            if not (is_strlen or is_field):
+                continue
+            if len(re.findall(r"\b%s\b\s*(?:=(?!=)|\+\+|--|\+=|-=)" % re.escape(name), out)) != 1 or re.search(r"&\s*%s\b" % re.escape(name), out):
+                continue
+            head, tail = out[:m.start()], out[m.end():]
+            head = re.sub(r"^[ \t]*" + TY + re.escape(name) + r"\s*;[ \t]*\n", "", head, flags=re.M)
+            rep = expr if (is_strlen or re.fullmatch(r"[\w>.\-]+", expr)) else "(" + expr + ")"
+            tail = re.sub(r"\b%s\b" % re.escape(name), lambda _m: rep, tail)
+            out = head + tail
+            changed = True
+            break
+        if not changed:
+            break
+    return out
+
+
+def reachable_body(src, fn, depth=2):
+    """body of `fn` followed by the bodies of the file-local static functions it calls (transitively, to the given depth):
+    the text the regex translators search when a statement may have been moved into a static helper of the same file."""
+    body = func_body(src, fn) or ""
+    seen, todo, out = {fn}, [(body, 0)], [body]
+    statics = set(re.findall(r"^\s*static\s+[\w\s\*]+?\b(\w+)\s*\([^;{]*\)\s*\{", src, re.M))
+    while todo:
+        b, d = todo.pop()
+        if d >= depth:
+            continue
+        for name in statics:
+            if name not in seen and re.search(r"\b%s\s*\(" % re.escape(name), b):
+                seen.add(name)
+                hb = func_body(src, name) or ""
+                out.append(hb)
+                todo.append((hb, d + 1))
+    return "\n".join(out)
+
+
 def adj(expr, var):
     """expr is `var` or `var + k` / `var+k`: return k, else None."""
     e = expr.replace(" ", "")
+    while e.startswith("(") and e.endswith(")"):
+        e = e[1:-1]
     v = var.replace(" ", "")
     if e == v:
         return 0
@@ -156,7 +205,7 @@ def tr_expand(run):
     sbody = func_body(strip_comments(run.src("src/util/string.c")), "snoopy_util_string_append") or ""
     m = re.search(r"if\s*\(\s*destStringSizeRemaining\s*(<=|<)\s*appendThisSize\s*\)", sbody)
     v["append_strict"] = (m.group(1) == "<=") if m else None
-    act = strip_comments(run.src("src/action/log-syscall-exec.c"))
+    act = resolve_locals(strip_comments(run.src("src/action/log-syscall-exec.c")))
     m = re.search(r"snoopy_message_generateFromFormat\s*\(\s*logMessage\s*,\s*([^,]+),\s*([^,]+),\s*CFG->message_format\s*\)", act)
     v["call_log_adj"] = adj(m.group(1), "CFG->log_message_max_length") if m else None
     v["call_ds_adj"] = adj(m.group(2), "CFG->datasource_message_max_length") if m else None
